@@ -400,7 +400,11 @@ func vfC05Eval(w *vfC05World, q query.Q, d *vfC05Doc) bool {
 			return ok && s.Value.MatchString(v)
 		})
 	case query.RawConfig:
-		return onRepo(func(r *zoekt.Repository) bool { return uint8(s)&encodeRawConfig(r.RawConfig) == uint8(s) })
+		var mask uint8 // a document without repository (empty shard) has mask 0
+		if repo != nil {
+			mask = encodeRawConfig(repo.RawConfig)
+		}
+		return uint8(s)&mask == uint8(s)
 	case *query.And:
 		for _, c := range s.Children {
 			if !vfC05Eval(w, c, d) {
@@ -634,6 +638,77 @@ func vfC05CoqWorld(w *vfC05World, q query.Q) (repos, langs, retab string) {
 	return
 }
 
+// every node of the tree, including the expression below Symbol
+func vfC05Walk(q query.Q, f func(query.Q)) {
+	f(q)
+	switch s := q.(type) {
+	case *query.And:
+		for _, c := range s.Children {
+			vfC05Walk(c, f)
+		}
+	case *query.Or:
+		for _, c := range s.Children {
+			vfC05Walk(c, f)
+		}
+	case *query.Not:
+		vfC05Walk(s.Child, f)
+	case *query.Type:
+		vfC05Walk(s.Child, f)
+	case *query.Boost:
+		vfC05Walk(s.Child, f)
+	case *query.Symbol:
+		vfC05Walk(s.Expr, f)
+	}
+}
+
+// CRef case: the Go reference evaluator's verdict per document, to be compared with the model's eval
+func vfC05RefCase(w *vfC05World, q query.Q) string {
+	repos, langs, retab := vfC05CoqWorld(w, q)
+	subjects := map[string]bool{}
+	var docs, sel []string
+	for i := range w.Docs {
+		d := &w.Docs[i]
+		subjects[d.Name], subjects[d.Content] = true, true
+		bs := "[]"
+		if len(d.Branches) > 1 {
+			var l []string
+			for _, b := range d.Branches[1:] {
+				l = append(l, cStr(b))
+			}
+			bs = cList(l)
+		}
+		docs = append(docs, cTuple(cNat(d.Repo), cStr(d.Name), cStr(d.Content), cStr(d.Branches[0]), bs, cStr(d.Lang)))
+		sel = append(sel, cBool(vfC05Eval(w, q, d)))
+	}
+	seen := map[string]bool{}
+	var tab []string
+	vfC05Walk(q, func(a query.Q) {
+		s, ok := a.(*query.Regexp)
+		if !ok {
+			return
+		}
+		src := s.Regexp.String()
+		k := fmt.Sprint(src, s.CaseSensitive)
+		if seen[k] {
+			return
+		}
+		seen[k] = true
+		csrc := src
+		if !s.CaseSensitive {
+			csrc = "(?i)" + src
+		}
+		re := regexp.MustCompile(csrc)
+		for _, subj := range vfSortedKeys(subjects) {
+			tab = append(tab, cTuple(cStr(src), cBool(s.CaseSensitive), cStr(subj), cBool(re.MatchString(subj))))
+		}
+	})
+	rxtab := "[]"
+	if len(tab) > 0 {
+		rxtab = cList(tab)
+	}
+	return cApp("CRef", repos, langs, retab, rxtab, vfC05Coq(q), cList(docs), cList(sel))
+}
+
 func vfC05Count(q query.Q) int {
 	n := 1
 	switch s := q.(type) {
@@ -665,6 +740,9 @@ func TestVerifC05(t *testing.T) {
 		}
 		depth := 1 + r.Intn(4)
 		q := vfC05GenTree(r, depth)
+		for k := 0; k < 3 && vfC05Count(q) < 3 && r.Chance(85); k++ { // few bare atoms
+			q = vfC05GenTree(r, depth+1)
+		}
 		if i%10 == 0 { // deep nesting of the same kind: several flatten rounds
 			for k := 0; k < 2+r.Intn(4); k++ {
 				if r.Bool() {
@@ -678,6 +756,10 @@ func TestVerifC05(t *testing.T) {
 		}
 		qCoq := vfC05Coq(q)
 		size := vfC05Count(q)
+		if i%4 == 0 {
+			ref := vfC05RefCase(w, q)
+			vfCase(ref, vfKey("ref", ref), size >= 3, []string{"reference-evaluator"}, map[string]any{"rewrite": "reference evaluator", "query": q.String()})
+		}
 		for ri := range vfC05Rewrites {
 			rw := &vfC05Rewrites[ri]
 			bad, before, after, out := vfC05Fails(w, rw, q)
